@@ -308,10 +308,22 @@ func (rp *recvProp) run(c Case, component bool, smid string, n0 int, rng *rand.R
 	var disc []string
 	serr := 0
 	router := xmpp.NewRouter()
+	replies := c.Variant[0] == "client-replies"
+	if replies {
+		// the outbound half of the connection is already dead: what the handlers send cannot be written
+		st.failPrefix = "<message id='reply-"
+	}
 	router.NewRoute().HandlerFunc(func(s xmpp.Sender, p stanza.Packet) {
 		mu.Lock()
 		routed = append(routed, recvKey(p))
+		k := len(routed)
 		mu.Unlock()
+		if replies {
+			// the application answers what it receives (raw, and as a stanza): each call returns - with an error, the
+			// connection being dead - and the routing goroutine ends
+			s.SendRaw(fmt.Sprintf("<message id='reply-%d' to='a@b'><body>ack</body></message>", k))
+			s.Send(stanza.Message{Attrs: stanza.Attrs{Id: fmt.Sprintf("reply-%d", k), To: "a@b"}, Body: "ack"})
+		}
 	})
 	eh := func(error) { mu.Lock(); errh++; mu.Unlock() }
 	handler := func(e xmpp.Event) error {
@@ -626,6 +638,16 @@ func (rp recvProp) Generate(rng *rand.Rand, tier string, st *Stats) []Case {
 			ops := append(seq(ks), []string{"finish"}, []string{"resume", "fails"})
 			cases = append(cases, Case{ID: fmt.Sprintf("%s-%d", rp.id, n), Variant: []string{"client-resume", hx("sm1"), "0"}, Ops: ops})
 			n++
+		}
+	}
+	// handlers that ANSWER what they receive while the outbound half of the connection is already dead (every such write
+	// fails): each Send / SendRaw returns, the routing goroutines end, the loss is reported once - with stream management
+	// (store-then-write under the queue lock) and without
+	if rp.id == "C12" || rp.id == "C05" {
+		for _, smid := range []string{"sm1", ""} {
+			for _, ks := range [][]string{{"msg", "msg", "msg"}, {"msg", "pres", "iq", "msg", "cut"}, {"iq", "iq"}, {"msg", "pres", "msg", "pres", "msg", "junk"}} {
+				mk("client-replies", smid, 0, seq(ks))
+			}
 		}
 	}
 	// corpus (witnesses of F-09, F-05, F-12)
